@@ -22,6 +22,117 @@ def is_map(field):
     return ct.startswith(('std::unordered_map<', 'std::map<', 'class std::unordered_map<', 'class std::map<'))
 
 
+MUTATORS = {'erase', 'push_back', 'emplace_back', 'pop_back', 'insert', 'clear', 'emplace', 'push', 'pop', 'resize', 'operator[]', 'try_emplace', 'insert_or_assign'}
+
+
+def by_value_locals(fx, f):
+    """locals of class type declared by value (no reference / pointer) and initialised from an expression that denotes existing storage:
+    a call whose callee returns a reference, or a member access path"""
+    out = {}
+    for n in fwalk(f):
+        if n.get('k') != 'decl' or n.get('init') is None:
+            continue
+        t = n.get('t') or ''
+        ct = n.get('ct') or t
+        if '&' in t or '*' in t or '&' in ct or '*' in ct:
+            continue
+        if not any(m in ct for m in ('vector<', 'map<', 'vec<', 'set<', 'basic_string', 'Map<')):
+            continue
+        i = see_through(n['init'])
+        # copy construction shows as new/init node around the source expression
+        while isinstance(i, dict) and i.get('k') in ('new', 'init') and len(i.get('a') or i.get('e') or []) == 1:
+            i = see_through((i.get('a') or i.get('e'))[0])
+        if not isinstance(i, dict):
+            continue
+        src = None
+        if i.get('k') == 'call':
+            for tid in fx.targets(i):
+                g = fx.F.get(tid)
+                if g and '&' in (g.get('ret') or ''):
+                    src = g['name']
+            if i.get('op') == '[]' or mname(i) in ('at', 'second', 'first'):
+                src = src or 'element access'
+        elif i.get('k') in ('mem', 'ref') and (path_of(i) or '').startswith('this.'):
+            src = path_of(i)
+        if src:
+            out[n['n']] = (n.get('ln'), src)
+    return out
+
+
+def lost_updates(fx, f):
+    bv = by_value_locals(fx, f)
+    out = []
+    for name, (ln, src) in bv.items():
+        mutated = None
+        escapes = False
+        for n in fwalk(f):
+            if n.get('as'):
+                continue
+            k = n.get('k')
+            if k == 'call':
+                rp = recv_path(n) or ''
+                if rp.split('.')[0].split('[')[0] == name and mname(n) in MUTATORS and not n.get('mc'):
+                    mutated = mutated or n.get('ln')
+                for a in n.get('a') or []:
+                    if rp.split('.')[0] != name and any(x.get('k') == 'ref' and x.get('n') == name for x in walk(a)) and not callee(n).startswith('std::'):
+                        escapes = True
+                if callee(n).endswith(('::swap', 'std::swap', 'std::move')) and any(x.get('k') == 'ref' and x.get('n') == name for x in walk(n)):
+                    escapes = True
+            elif k == 'ret' and n.get('e') is not None and any(x.get('k') == 'ref' and x.get('n') == name for x in walk(n['e'])):
+                escapes = True
+            elif k == 'bin' and n.get('op') == '=' and any(x.get('k') == 'ref' and x.get('n') == name for x in walk(n['r'])):
+                escapes = True
+        if mutated and not escapes:
+            out.append((name, mutated))
+    return out
+
+
+def registry_undo_rules(fx, res, classes=None):
+    """R3/R3b, shared with C06 (unsat-core names are read from termToNames)"""
+    # ---- R3 the undo callback empties both maps: eraseTermName erases from nameToTerm and from the name vector, and drops emptied vectors
+    r = res.rule('undo-touches-all', 'TermNames::popScope undoes through eraseTermName, which removes the name from nameToTerm and from the per-term vector; '
+                 'DefinedFunctions::popScope erases from the map', floor=3)
+    et = fx.func('opensmt::TermNames::eraseTermName')
+    ps = fx.func('opensmt::TermNames::popScope')
+    if any(is_call(n, 'eraseTermName') for n in fwalk(ps)) and any(is_call(n, 'popScope', 'this.scopedNamesAndTerms') for n in fwalk(ps)):
+        res.ok(r, 'TermNames::popScope -> scopedNamesAndTerms.popScope(callback: eraseTermName)')
+    else:
+        res.bad(r, 'popScope-callback', fx.loc(ps), 'TermNames::popScope no longer undoes names through eraseTermName')
+    by_value = by_value_locals(fx, et)
+
+    def vec_erase(n):
+        # the erased vector must be storage of the registry: an access path into termToNames or a reference/pointer local, never a by-value copy
+        rp = recv_path(n)
+        return is_call(n, 'erase') and rp not in ('this.nameToTerm', 'this.termToNames') and (rp or '').split('.')[0].split('[')[0] not in by_value
+    exits, eng = must_call(et, {'n2t': lambda n: is_call(n, 'erase', 'this.nameToTerm'), 'vec': vec_erase})
+    bad = [nd for k, nd, st in exits if k == 'return' and ret_value(nd) is True and not {'n2t', 'vec'} <= st]
+    if bad:
+        res.bad(r, 'eraseTermName-partial', fx.loc(et), 'eraseTermName can report success without erasing from both nameToTerm and the per-term name vector')
+    else:
+        res.ok(r, 'eraseTermName erases from nameToTerm and the name vector before returning true')
+    dp = fx.func('opensmt::DefinedFunctions::popScope')
+    if any(is_call(n, 'erase', 'this.defined_functions') for n in fwalk(dp)) and any(is_call(n, 'popScope', 'this.scopedNames') for n in fwalk(dp)):
+        res.ok(r, 'DefinedFunctions::popScope erases every logged name')
+    else:
+        res.bad(r, 'DefinedFunctions::popScope', fx.loc(dp), 'DefinedFunctions::popScope no longer erases the logged names from the map')
+
+    # ---- R3b mutations inside the registries act on the registry's storage, not on a copy that is then dropped
+    r = res.rule('undo-acts-on-storage', 'in the methods of the scoped registries a container obtained from the registry by value (a copy) is not the target of a '
+                 'mutation whose result is then dropped (not returned, stored back or passed on)', floor=10)
+    for cls in (classes or REGISTRIES):
+        for f in fx.F.values():
+            if f.get('class') != cls or not f.get('body'):
+                continue
+            lost = lost_updates(fx, f)
+            for name, ln in lost:
+                res.bad(r, 'lost-update:%s:%s' % (f['name'].split('::')[-1], name), fx.loc(f, ln),
+                        '%s mutates `%s`, a by-value copy of registry data, and never stores it back: the registry keeps the old contents' % (f['name'], name))
+            if not lost:
+                res.ok(r, f['name'])
+
+    return ps
+
+
 def run(src, tier, seed):
     fx = Facts(src)
     res = Result('C21')
@@ -117,27 +228,7 @@ def run(src, tier, seed):
                         '%s::%s: keys are created by %s and key presence is tested by %s, but no method ever erases a key: an undone insertion leaves the key behind'
                         % (cls, fld['n'], sorted({c[0].split('::')[-1] + '/' + c[1] for c in creates}), sorted({t[0].split('::')[-1] + '/' + t[1] for t in presence})))
 
-    # ---- R3 the undo callback empties both maps: eraseTermName erases from nameToTerm and from the name vector, and drops emptied vectors
-    r = res.rule('undo-touches-all', 'TermNames::popScope undoes through eraseTermName, which removes the name from nameToTerm and from the per-term vector; '
-                 'DefinedFunctions::popScope erases from the map', floor=3)
-    et = fx.func('opensmt::TermNames::eraseTermName')
-    ps = fx.func('opensmt::TermNames::popScope')
-    if any(is_call(n, 'eraseTermName') for n in fwalk(ps)) and any(is_call(n, 'popScope', 'this.scopedNamesAndTerms') for n in fwalk(ps)):
-        res.ok(r, 'TermNames::popScope -> scopedNamesAndTerms.popScope(callback: eraseTermName)')
-    else:
-        res.bad(r, 'popScope-callback', fx.loc(ps), 'TermNames::popScope no longer undoes names through eraseTermName')
-    exits, eng = must_call(et, {'n2t': lambda n: is_call(n, 'erase', 'this.nameToTerm'),
-                                'vec': lambda n: is_call(n, 'erase') and recv_path(n) not in ('this.nameToTerm', 'this.termToNames')})
-    bad = [nd for k, nd, st in exits if k == 'return' and ret_value(nd) is True and not {'n2t', 'vec'} <= st]
-    if bad:
-        res.bad(r, 'eraseTermName-partial', fx.loc(et), 'eraseTermName can report success without erasing from both nameToTerm and the per-term name vector')
-    else:
-        res.ok(r, 'eraseTermName erases from nameToTerm and the name vector before returning true')
-    dp = fx.func('opensmt::DefinedFunctions::popScope')
-    if any(is_call(n, 'erase', 'this.defined_functions') for n in fwalk(dp)) and any(is_call(n, 'popScope', 'this.scopedNames') for n in fwalk(dp)):
-        res.ok(r, 'DefinedFunctions::popScope erases every logged name')
-    else:
-        res.bad(r, 'DefinedFunctions::popScope', fx.loc(dp), 'DefinedFunctions::popScope no longer erases the logged names from the map')
+    ps = registry_undo_rules(fx, res)
 
     # ---- R4 switch symmetry
     r = res.rule('global-switch-symmetry', 'TermNames::pushScope and popScope skip under exactly the same predicate (isGlobal())', floor=1)
